@@ -107,7 +107,15 @@ def fb(ctx):
                     if e[0] == 'field':
                         return ('field', res(strip(e[1])), e[2])
                     return e
-                okn = res(fnm) == strip(F['name'])
+                def as0(e):
+                    # `ident.as_str()` is the text of the newtype: `ident.0`
+                    e = strip(e)
+                    if e[0] == 'call' and e[1].endswith('Ident::as_str') and e[2]:
+                        return ('field', as0(res(strip(e[2][0]))), '0')
+                    if e[0] == 'field':
+                        return ('field', as0(e[1]), e[2])
+                    return e
+                okn = as0(res(fnm)) == as0(F['name'])
         ctx.ob(['C04'], 'R-SLP', 'FB|slot-name-agreement', okn, 'the slot name a virtual wrapper reads and the wrapper\'s own name come from the same grammar function name: %s vs %s' % (det, show(F['name'])), where)
     # address on vfunc => Err; index on non-vfunc => Err
     gv = [g for g in gs if g.kind == 'reject' and g.kinds <= {'err_own'} and strip(g.pred) == V]
